@@ -134,6 +134,23 @@ def mk_key(spec):
         return np.array(val, dtype=bool)
     if kind == "masklist":
         return [bool(x) for x in val]
+    # further spellings of the same four kinds of key (an integer; an index list)
+    if kind == "npint32":
+        return np.int32(val)
+    if kind == "npuint":
+        return np.uint8(val)
+    if kind == "arr0d":
+        return np.array(int(val))                  # 0-d integer array: numpy treats it as an integer
+    if kind == "tuple1":
+        return (int(val),)                         # a[(i,)] is a[i]
+    if kind == "range":
+        return range(*val)                         # a sequence of integers: fancy indexing, like the list of its elements
+    if kind == "listnp":
+        return [np.int64(x) for x in val]
+    if kind == "array32":
+        return np.array(val, dtype=np.int32)
+    if kind == "tuplearr":
+        return (np.array(val, dtype=np.int64),)    # a[(idx,)] is a[idx]
     raise ValueError(kind)
 
 
@@ -281,7 +298,13 @@ def rmsd_probe(md, t):
             r2 = md.rmsd(b, b, k, precentered=False)
         except Exception as e:  # noqa: BLE001
             return "error:" + errclass(e)
-        worst = max(worst, float(np.abs(r1 - r2).max()))
+        # float32 noise of the kernels: RMSD^2 = (Ga + Gb - 2 lambda) / N carries an absolute error of a few 1e-4 nm^2 on
+        # this data (traces ~ 25 nm^2, 3-5 atoms), which the square root turns into up to 0.03 nm when the true RMSD is 0
+        # (a frame against itself: 0.0289 observed from scratch, 0 with the shortcut).  A pair only counts when the SQUARED
+        # values differ by more than 2e-3 nm^2; a stale cache is off by the square of a centroid shift or of a wrong frame,
+        # >= (0.25 nm)^2 on the generated data
+        d = np.where(np.abs(r1.astype(np.float64) ** 2 - r2.astype(np.float64) ** 2) > 2e-3, np.abs(r1 - r2), 0.0)
+        worst = max(worst, float(d.max()))
     return worst
 
 
@@ -353,6 +376,7 @@ def run_case(md, case):
     steps = []
     overlap = []       # numeric overlap decisions of every join(discard_overlapping_frames=True)
     prop = []          # model-free property oracle failures
+    observed = []      # [step, observer, status] of every observer call inside the history
     for si, op in enumerate(case["ops"]):
         name = op[0]
         before_arrays = [a for t in regs for a in arrays_of(t) if a is not None]
@@ -365,7 +389,7 @@ def run_case(md, case):
             if not all(0 <= r < len(regs) for r in op_regs(op)):
                 steps.append("NoReg")
                 continue
-            structural = name in ("slice", "join", "mdjoin", "stack", "atom_slice", "remove_solvent")
+            structural = name in ("slice", "join", "mdjoin", "stack", "atom_slice", "remove_solvent", "restrict_atoms")
             src_reg = regs[op[1][0]] if name == "mdjoin" else regs[op[1]]
             src_have = bool(src_reg._have_unitcell) if structural else None
             if name == "slice":
@@ -450,6 +474,70 @@ def run_case(md, case):
                 out = regs[r].remove_solvent(inplace=inplace)
                 if not inplace:
                     new = out
+            elif name == "restrict_atoms":
+                # deprecated alias of atom_slice (same model operation); its default is inplace=True
+                _, r, idx, inplace = op
+                t = regs[r]
+                snap = np.array(t._xyz, copy=True)
+                out = t.restrict_atoms([int(i) for i in idx], inplace=inplace) if not inplace or (si % 2) else \
+                    t.restrict_atoms([int(i) for i in idx])
+                if inplace:
+                    if out is not t:
+                        prop.append({"step": si, "kind": "inplace-returned-other-object"})
+                else:
+                    new = out
+                if not np.array_equal(out.xyz, snap[:, [int(i) for i in idx]]):
+                    prop.append({"step": si, "kind": "field-not-numpy-index", "field": "xyz(atoms)"})
+            elif name == "image":
+                # ["image", r, "whole" | "image", inplace]: make_molecules_whole / image_molecules.  What the kernel computes
+                # is not modelled: the coordinates it leaves are recorded as a fresh data source (see coq/Traj/Extra.v)
+                _, r, which, inplace = op
+                t = regs[r]
+                if t._have_unitcell and not (len(t._time) == t.n_frames and len(t._unitcell_lengths) == t.n_frames
+                                             and len(t._unitcell_angles) == t.n_frames and t.n_atoms >= 1
+                                             and t._topology is not None and t._topology.n_atoms == t.n_atoms):
+                    steps.append("NoReg")          # outside the modelled domain (the C kernels would index out of bounds)
+                    continue
+                hashes = [snapshot_full(x) for x in regs]
+                if which == "whole":
+                    out = t.make_molecules_whole(inplace=inplace)
+                else:
+                    out = t.image_molecules(inplace=inplace, anchor_molecules=t.topology.find_molecules()[:1])
+                if inplace:
+                    if out is not t:
+                        prop.append({"step": si, "kind": "inplace-returned-other-object"})
+                else:
+                    new = out
+                    if [snapshot_full(x) for x in regs] != hashes:
+                        prop.append({"step": si, "kind": "copying-call-modified-a-trajectory", "op": name + ":" + which})
+                if out.xyz.shape != t.xyz.shape or not np.array_equal(out.time, t.time):
+                    prop.append({"step": si, "kind": "field-not-numpy-index", "field": "shape/time"})
+                sources[nsrc] = {"xyz": np.array(out._xyz, copy=True)}
+                nsrc += 1
+            elif name == "smooth":
+                _, r, inplace = op
+                t = regs[r]
+                hashes = [snapshot_full(x) for x in regs]
+                out = t.smooth(3, order=1, inplace=inplace)
+                if inplace:
+                    out = t
+                else:
+                    new = out
+                    if [snapshot_full(x) for x in regs] != hashes:
+                        prop.append({"step": si, "kind": "copying-call-modified-a-trajectory", "op": name})
+                sources[nsrc] = {"xyz": np.array(out._xyz, copy=True)}
+                nsrc += 1
+            elif name == "observe":
+                # ["observe", r, observer name]: an analysis / save call in the middle of a history must leave EVERY
+                # trajectory object bit-identical (arrays, dtypes, array identities, cache, flags, topology)
+                _, r, oname = op
+                hashes = [snapshot_full(x) for x in regs]
+                status = run_observer(md, regs[r], oname, case.get("tmp", "."))
+                observed.append([si, oname, status])
+                after = [snapshot_full(x) for x in regs]
+                if after != hashes:
+                    prop.append({"step": si, "kind": "observer-modified-a-trajectory", "observer": oname,
+                                 "registers": [i for i, (a, b) in enumerate(zip(hashes, after)) if a != b]})
             elif name == "center":
                 regs[op[1]].center_coordinates(mass_weighted=bool(op[2]))
             elif name == "superpose":
@@ -522,7 +610,8 @@ def run_case(md, case):
                         if np.shares_memory(new._xyz, a):
                             prop.append({"step": si, "kind": "result-xyz-shares-memory-with-input", "op": name})
                             break
-                strict = (name == "slice" and op[3]) or name in ("join", "mdjoin") or name in ("atom_slice", "remove_solvent")
+                strict = (name == "slice" and op[3]) or name in ("join", "mdjoin") or \
+                    name in ("atom_slice", "remove_solvent", "restrict_atoms", "image")
                 if strict:
                     hit = None
                     for fi, a in enumerate(arrays_of(new)):
@@ -572,6 +661,7 @@ def run_case(md, case):
                 share.append([arrays[x][0], arrays[y][0]])
     same_top = [[i, j] for i in range(len(regs)) for j in range(i + 1, len(regs)) if tops[i] == tops[j]]
     return {"steps": steps, "regs": out_regs, "share": share, "same_top": same_top, "prop": prop, "overlap": overlap,
+            "observed": observed,
             "sources": {str(s): {k: v.tolist() for k, v in d.items()} for s, d in sources.items()},
             "masses": masses}
 
@@ -586,6 +676,84 @@ def snapshot(t):
     desc.append(sorted((b[0].index, b[1].index) for b in top.bonds))
     h.update(repr(desc).encode())
     return h.hexdigest()
+
+
+def snapshot_full(t):
+    """everything an observer could change: bytes, dtype, shape, layout and identity of the five arrays, the flag, the
+    identity and the content of the topology"""
+    import hashlib
+    h = hashlib.sha256()
+    for a in arrays_of(t):
+        if a is None:
+            h.update(b"N")
+        else:
+            b = np.asarray(a)
+            h.update(np.ascontiguousarray(b).tobytes() + repr((b.shape, str(b.dtype), b.strides, b.flags.writeable, id(a))).encode())
+    h.update(repr((bool(t._time_default_to_arange), id(t._topology))).encode())
+    top = t._topology
+    if top is not None:
+        desc = [(c.index, r.index, r.name, r.resSeq, a.index, a.name, a.element.symbol, a.serial) for c in top.chains
+                for r in c.residues for a in r.atoms]
+        desc.append([(b[0].index, b[1].index) for b in top.bonds])
+        h.update(repr(desc).encode())
+    return h.hexdigest()
+
+
+SMALL_OBSERVERS = {
+    "compute_distances": lambda md, t, tmp: md.compute_distances(t, [[0, t.n_atoms - 1]]),
+    "compute_distances(periodic=False)": lambda md, t, tmp: md.compute_distances(t, [[0, t.n_atoms - 1]], periodic=False),
+    "compute_distances(opt=False)": lambda md, t, tmp: md.compute_distances(t, [[0, t.n_atoms - 1]], opt=False),
+    "compute_displacements": lambda md, t, tmp: md.compute_displacements(t, [[0, t.n_atoms - 1]]),
+    "compute_angles": lambda md, t, tmp: md.compute_angles(t, [[0, 1, 2]]),
+    "compute_dihedrals": lambda md, t, tmp: md.compute_dihedrals(t, [[0, 1, 2, 3]]),
+    "compute_rg": lambda md, t, tmp: md.compute_rg(t),
+    "compute_center_of_mass": lambda md, t, tmp: md.compute_center_of_mass(t),
+    "compute_center_of_geometry": lambda md, t, tmp: md.compute_center_of_geometry(t),
+    "compute_inertia_tensor": lambda md, t, tmp: md.compute_inertia_tensor(t),
+    "compute_gyration_tensor": lambda md, t, tmp: md.compute_gyration_tensor(t),
+    "compute_contacts": lambda md, t, tmp: md.compute_contacts(t, scheme="closest"),
+    "compute_neighbors": lambda md, t, tmp: md.compute_neighbors(t, 2.0, [0]),
+    "compute_neighborlist": lambda md, t, tmp: md.compute_neighborlist(t, 2.0),
+    "compute_rdf": lambda md, t, tmp: md.compute_rdf(t, [[0, t.n_atoms - 1]], r_range=(0.0, 2.0)),
+    "density": lambda md, t, tmp: md.density(t),
+    "shrake_rupley": lambda md, t, tmp: md.shrake_rupley(t),
+    "compute_drid": lambda md, t, tmp: md.compute_drid(t),
+    "find_closest_contact": lambda md, t, tmp: md.find_closest_contact(t, [0], [t.n_atoms - 1]),
+    "rmsd(atom_indices)": lambda md, t, tmp: md.rmsd(t, t, 0, atom_indices=np.arange(t.n_atoms)),
+    "lprmsd": lambda md, t, tmp: md.lprmsd(t, t, 0),
+    "hash": lambda md, t, tmp: hash(t),
+    "eq": lambda md, t, tmp: t == t,
+    "str": lambda md, t, tmp: (str(t), repr(t), len(t), t.n_residues, t.n_chains),
+    "timestep": lambda md, t, tmp: t.timestep,
+    "unitcell_vectors": lambda md, t, tmp: t.unitcell_vectors,
+    "unitcell_volumes": lambda md, t, tmp: t.unitcell_volumes,
+    "openmm": lambda md, t, tmp: (t.openmm_positions(0), t.openmm_boxes(0)),
+    "topology.to_dataframe": lambda md, t, tmp: t.topology.to_dataframe(),
+    "topology.select": lambda md, t, tmp: t.topology.select("name A1 or resname HOH"),
+    "topology.find_molecules": lambda md, t, tmp: t.topology.find_molecules(),
+    "slice": lambda md, t, tmp: t[::-1],
+    "slice(copy=False)": lambda md, t, tmp: t.slice(slice(None), copy=False),
+    "join": lambda md, t, tmp: t.join(t, discard_overlapping_frames=True),
+    "stack": lambda md, t, tmp: t.stack(t),
+    "atom_slice": lambda md, t, tmp: t.atom_slice([0]),
+    "remove_solvent": lambda md, t, tmp: t.remove_solvent(),
+    "smooth(inplace=False)": lambda md, t, tmp: t.smooth(3, order=1),
+    "make_molecules_whole(inplace=False)": lambda md, t, tmp: t.make_molecules_whole(),
+    "image_molecules(inplace=False)": lambda md, t, tmp: t.image_molecules(anchor_molecules=t.topology.find_molecules()[:1]),
+    "pickle": lambda md, t, tmp: __import__("pickle").dumps(t),
+    "deepcopy": lambda md, t, tmp: _copy.deepcopy(t),
+}
+for _ext in ("h5", "pdb", "xtc", "trr", "dcd", "nc", "binpos", "mdcrd", "xyz", "lammpstrj", "gro", "rst7", "ncrst", "lh5",
+             "pdb.gz", "dtr"):
+    SMALL_OBSERVERS["save(." + _ext + ")"] = (lambda md, t, tmp, e=_ext: t.save(__import__("os").path.join(tmp, "obs." + e)))
+
+
+def run_observer(md, t, name, tmp):
+    try:
+        SMALL_OBSERVERS[name](md, t, tmp)
+        return "ok"
+    except Exception as e:  # noqa: BLE001   (an observer may refuse a state; refusing is not changing)
+        return "raised:" + errclass(e)
 
 
 def run_observers(md, tmp):
@@ -658,24 +826,39 @@ def run_observers(md, tmp):
         calls["save(." + ext + ")"] = (lambda e=ext: t.save(os.path.join(tmp, "o." + e)))
     res = {}
     for nm, fn in calls.items():
-        before = snapshot(t)
+        before = snapshot(t), snapshot_full(t)
         try:
             fn()
             st = "ok"
         except Exception as e:  # noqa: BLE001
             st = "raised:" + errclass(e)
-        after = snapshot(t)
+        after = snapshot(t), snapshot_full(t)
         res[nm] = {"status": st, "unchanged": before == after}
+    # the same calls on a trajectory that carries the RMSD cache (centred) and integer default times
+    t.center_coordinates()
+    for nm, fn in calls.items():
+        before = snapshot(t), snapshot_full(t)
+        try:
+            fn()
+            st = "ok"
+        except Exception as e:  # noqa: BLE001
+            st = "raised:" + errclass(e)
+        after = snapshot(t), snapshot_full(t)
+        res[nm + " [centred, cache present]"] = {"status": st, "unchanged": before == after}
     return res
 
 
 def main():
     payload = json.load(sys.stdin)
     import mdtraj as md
-    out = {"cases": [run_case(md, c) for c in payload.get("cases", [])]}
+    import tempfile
+    import shutil
+    d0 = tempfile.mkdtemp(prefix="c03obsh-", dir=".")
+    try:
+        out = {"cases": [run_case(md, dict(c, tmp=d0)) for c in payload.get("cases", [])]}
+    finally:
+        shutil.rmtree(d0, ignore_errors=True)
     if payload.get("observers"):
-        import tempfile
-        import shutil
         d = tempfile.mkdtemp(prefix="c03obs-", dir=".")
         try:
             out["observers"] = run_observers(md, d)
